@@ -6,6 +6,7 @@ package main
 //   silence             : no complete reply, no client disconnect in the script, no filter termination, not one-way
 //                         (this includes a worker still parked after the configured global time-out + slack)
 //   not-cleaned         : the stream was not cleaned (active gauge / ActiveStreamSize) although the exchange is over
+//   stream-never-cleaned-after-sender-error : snderr.go (histories in which the downstream sender returns errors)
 
 import (
 	"context"
@@ -175,6 +176,9 @@ func c03Finder(run *Run, j *histJob) {
 	replay := map[string]interface{}{"spec": sp, "observed": r.Rec, "done": r.Done, "gauge": r.Gauge, "active": r.Active}
 	if r.Panicked != "" {
 		run.Fail("C03:panic", "the request worker panicked: "+r.Panicked, replay)
+		return
+	}
+	if senderErrFinder(run, j, replay) {
 		return
 	}
 	if newAfterTerminate(r) {
@@ -476,7 +480,7 @@ func specKey(sp *Spec) string {
 
 func c03(args []string) int {
 	run := NewRun("C03", args)
-	run.Sum.Rule = "histories of one request through the real proxy: request shape (headers only / +data / +trailers / one-way) x retry policy (retry_on, num_retries 0..3, status list, per-try time-out) x pool script (ok / connect failure / overflow per attempt) x up to 4 scripted events {upstream response 2xx/4xx/5xx with or without body, upstream reset with each reason, client disconnect, TerminateStream} on a 40 ms grid (same slot = racy), plus the real per-try and global timers; systematic product of shapes x budgets x first event x random second event, then random histories. Non-trivial: at least one asynchronous event or pool failure or timer expiry decided the outcome (every history except the plain 2xx answer); distinct by the full history description."
+	run.Sum.Rule = "histories of one request through the real proxy: request shape (headers only / +data / +trailers / one-way) x retry policy (retry_on, num_retries 0..3, status list, per-try time-out) x pool script (ok / connect failure / overflow per attempt) x up to 4 scripted events {upstream response 2xx/4xx/5xx with or without body, upstream reset with each reason, client disconnect, TerminateStream} on a 40 ms grid (same slot = racy), plus the real per-try and global timers; systematic product of shapes x budgets x first event x random second event, then random histories. Plus 37 histories in which the downstream sender returns an error from AppendHeaders / AppendData / AppendTrailers: every reply kind (upstream reply headers-only / with body / with trailers, filter hijack per phase, filter direct response, route direct response, no route, no host, reset / overflow / time-out replies, TerminateStream, send-filter answers, retried 503) x every sender call occurring in it. Non-trivial: at least one asynchronous event or pool failure or timer expiry decided the outcome (every history except the plain 2xx answer); distinct by the full history description."
 	specs := genC03(run)
 	// listed-defect witnesses (always run so that the finding stays observed)
 	specs = append(specs,
@@ -495,6 +499,8 @@ func c03(args []string) int {
 			Filters: []FilterSpec{{Send: true, DelayMs: 30}},
 			Events:  []Event{{AtMs: 40, Kind: "upresp", K: 0, Status: 503}}},
 	)
+	// the downstream sender fails: every reply kind x every sender call
+	specs = append(specs, genSenderErr()...)
 	jobs := make([]*histJob, len(specs))
 	for i, sp := range specs {
 		jobs[i] = &histJob{id: i + 1, spec: sp}
